@@ -57,6 +57,25 @@ def bindings(ctx, finfo, _depth=0):
         b = _bind_site(ctx, finfo, flow, s)
         if b is not None:
             out.append(b)
+    # xs = [] ; for (a, b) in rows: xs.append(a)    ->  xs is the column bound to a
+    for b in list(out):
+        if b.kind == "rows" and isinstance(b.stmt, ast.For):
+            names = [None] * len(b.names)
+            for st in b.stmt.body:
+                if isinstance(st, ast.Expr) and isinstance(st.value, ast.Call) and isinstance(st.value.func, ast.Attribute) \
+                        and st.value.func.attr == "append" and isinstance(st.value.func.value, ast.Name) and len(st.value.args) == 1 \
+                        and isinstance(st.value.args[0], ast.Name) and st.value.args[0].id in b.names:
+                    lst = st.value.func.value.id
+                    # the list starts empty and nothing else is put into it
+                    inits = [a for a in ast.walk(finfo.node) if isinstance(a, ast.Assign) and len(a.targets) == 1 and isinstance(a.targets[0], ast.Name)
+                             and a.targets[0].id == lst]
+                    others = [c for c in ast.walk(finfo.node) if isinstance(c, ast.Call) and isinstance(c.func, ast.Attribute)
+                              and c.func.attr in ("append", "extend", "insert") and isinstance(c.func.value, ast.Name) and c.func.value.id == lst and c is not st.value]
+                    if len(inits) == 1 and isinstance(inits[0].value, ast.List) and not inits[0].value.elts and not others:
+                        names[b.names.index(st.value.args[0].id)] = lst
+            if any(names):
+                nb = Binding(b.site, names, b.stmt, "columns")
+                out.append(nb)
     if _depth < 2:
         for st in ast.walk(finfo.node):
             if not (isinstance(st, ast.Assign) and len(st.targets) == 1 and isinstance(st.value, ast.Call)):
